@@ -27,11 +27,11 @@ def registry():
                   'zero': 'counter == 0 ==> result == 64',
                   'trailing_zeros': 'counter != 0 ==> ((counter // pow2(result, 64)) % 2 == 1 and counter % pow2(result, 64) == 0)'})
 
-    cfgs = [{'name': 'default', 'set': {'cipher.block_len': 16}},
+    cfgs = [{'name': 'default', 'set': {'cipher.block_len': 16}, 'cost': 40},
             {'name': 'other_block_len', 'assume': ['cipher.block_len != 16']},
             {'name': 'null_cipher', 'null': ['cipher']}, {'name': 'null_pState', 'null': ['pState'], 'set': {'cipher.block_len': 16}}]
     NULLS = 'null(cipher) or null(pState)'
-    R.fn('OCB_start_operation', allocates=True, configs=cfgs, escapes=['pState[0]'], cost=20,
+    R.fn('OCB_start_operation', allocates=True, configs=cfgs, escapes=['pState[0]'], cost=1, quick=['default', 'other_block_len', 'null_cipher', 'null_pState'],
          regions={'cipher': 'struct', 'cipher.encrypt': 'fn:block_encrypt', 'offset_0': 'u8[offset_0_len]', 'pState': 'cell'},
          modifies=['pState'],
          ensures={
@@ -59,8 +59,8 @@ def registry():
     upd = dict(STATE)
     upd['in'] = 'u8[in_len]'
     R.define('consumed()', 'u64(old(in_len) - in_len)')
-    R.fn('OCB_update', regions=upd, cost=30,
-         configs=[{'name': 'default', 'set': SET}, {'name': 'null_state', 'null': ['state']}, {'name': 'null_in', 'null': ['in'], 'set': SET}],
+    R.fn('OCB_update', regions=upd, cost=2, quick=['default', 'null_state', 'null_in'],
+         configs=[{'name': 'default', 'set': SET, 'cost': 25}, {'name': 'null_state', 'null': ['state']}, {'name': 'null_in', 'null': ['in'], 'set': SET}],
          modifies=['state.offset_A', 'state.sum', 'state.counter_A'],
          ensures={'null_args': '(null(state) or null(in)) ==> result == %d' % ERR_NULL},
          loops={0: dict(invariants={'cursor': 'in_len <= old(in_len) and offset(in) == consumed()'}, decreases='in_len')})
@@ -73,8 +73,8 @@ def registry():
 
     tr = dict(STATE)
     tr.update({'in': 'u8[in_len]', 'out': 'u8[in_len]'})
-    R.fn('OCB_transcrypt', regions=tr, cost=60,
-         configs=[{'name': 'encrypt', 'set': dict(SET, direction=0)}, {'name': 'decrypt', 'set': dict(SET, direction=1)},
+    R.fn('OCB_transcrypt', regions=tr, cost=2, quick=['encrypt', 'decrypt', 'null_state', 'null_in', 'null_out'],
+         configs=[{'name': 'encrypt', 'set': dict(SET, direction=0), 'cost': 45}, {'name': 'decrypt', 'set': dict(SET, direction=1), 'cost': 45},
                   {'name': 'null_state', 'null': ['state']}, {'name': 'null_in', 'null': ['in'], 'set': SET},
                   {'name': 'null_out', 'null': ['out'], 'set': SET}],
          modifies=['out', 'state.offset_P', 'state.checksum', 'state.counter_P'],
